@@ -43,6 +43,8 @@ Inductive SRen (F : nat) (rest : list token) : rstmt -> list token -> Prop :=
     1 + idepth mitems < max_nesting -> isize items <= F ->
     SRen F rest (SPrint items) (TPrint :: ti)
 | SR_goto n x : line_target x = n -> SRen F rest (SGoto n) [TGoto; TNumber x]
+| SR_gosub n x : line_target x = n -> SRen F rest (SGosub n) [TGosub; TNumber x]
+| SR_return : SRen F rest SReturn [TReturn]
 | SR_end : SRen F rest SEnd [TEnd]
 | SR_if c c' tc n x : tr c = Some c' -> Renders 0 c' tc -> 1 + pdepth c' < max_nesting -> line_target x = n ->
     xsize c <= F ->
@@ -111,7 +113,12 @@ Qed.
 (* 3. one statement, both sides (warnings and tracing off) *)
 
 Definition rerr_of2 (e : ierror) : rerr :=
-  match e with EUndefinedStatement => RUndefinedLine | other => rerr_of other end.
+  match e with
+  | EUndefinedStatement => RUndefinedLine
+  | EStackOverflow => RStackOverflow
+  | EReturnWithoutGosub => RReturnWithoutGosub
+  | other => rerr_of other
+  end.
 
 Lemma set_state_same s : set_state (state s) s = s.
 Proof. destruct s; reflexivity. Qed.
@@ -145,11 +152,18 @@ Section Step.
   Definition step_result (stmt : rstmt) (i : nat) (ts : list token) (run : res unit * interp) (o : list output) : Prop :=
     match exec F p stmt after li st with
     | Next pc st' =>
-        exists s', run = (Ok tt, s') /\ keeps s' /\ same_store st' s' /\ stack s' = stack s
+        exists s', run = (Ok tt, s') /\ keeps s' /\ same_store st' s'
+          /\ r_frames st' = r_frames st
+          /\ ((r_calls st' = r_calls st /\ stack s' = stack s)
+              \/ (r_calls st' = after :: r_calls st
+                  /\ stack s' = stack s ++ [mkframe (mkloc (loc_line (loc s)) (i + length ts)) []])
+              \/ (exists fr rest cr, stack s = rest ++ [fr] /\ stack s' = rest
+                                     /\ r_calls st = pc :: cr /\ r_calls st' = cr /\ loc s' = fr_ret fr))
           /\ (exists outs, r_out st' = r_out st ++ outs /\ outputs s' = o ++ map OPrint outs)
           /\ ((pc = after /\ loc s' = mkloc (loc_line (loc s)) (i + length ts))
               \/ (exists n li' stmts, pc = (li', 0) /\ nth_error p li' = Some (n, stmts) /\ loc s' = mkloc (Some n) 0)
-              \/ (pc = (S li, 0) /\ loc s' = mkloc (loc_line (loc s)) (length toks)))
+              \/ (pc = (S li, 0) /\ loc s' = mkloc (loc_line (loc s)) (length toks))
+              \/ (exists fr rest cr, stack s = rest ++ [fr] /\ r_calls st = pc :: cr /\ loc s' = fr_ret fr))
     | Done st' =>
         st' = st /\ exists s', run = (Ok tt, s') /\ keeps s' /\ loc s' = imm0 /\ immediate s = [] /\ outputs s' = o
     | Fail er line st' =>
@@ -187,7 +201,7 @@ Section Step.
     destruct (den s e') as [x|er l|pp| |]; cbn [plain] in Hp; try contradiction.
     - destruct (type_matches v x).
       + eexists. split; [reflexivity|]. split; [apply (keeps_at (i + 2 + length te) r' o)|].
-        split; [apply (same_store_assign st s _ v x Hrel); reflexivity|]. split; [reflexivity|].
+        split; [apply (same_store_assign st s _ v x Hrel); reflexivity|]. split; [try (destruct st; reflexivity); reflexivity|]. split; [left; split; [try (destruct st; reflexivity); reflexivity | reflexivity]|].
         split; [exists []; split; [destruct st; cbn; rewrite app_nil_r; reflexivity | cbn; rewrite app_nil_r; reflexivity]|].
         left. split; [reflexivity|]. cbn [length]. cbn. f_equal. lia.
       + split; [reflexivity|]. split; [reflexivity|]. eexists _, _. split; [reflexivity|].
@@ -211,7 +225,7 @@ Section Step.
     pose proof (pden_plain s items mitems Htr false []) as Hp.
     destruct (pden s mitems false []) as [[semi text]|er l|pp| |]; try contradiction.
     - eexists. split; [reflexivity|]. split; [apply keeps_at|].
-      split; [apply same_store_at; destruct Hrel as [A B]; split; [exact A | exact B]|]. split; [reflexivity|].
+      split; [apply same_store_at; destruct Hrel as [A B]; split; [exact A | exact B]|]. split; [try (destruct st; reflexivity); reflexivity|]. split; [left; split; [try (destruct st; reflexivity); reflexivity | reflexivity]|].
       split; [eexists [_]; split; [reflexivity | reflexivity]|].
       left. split; [reflexivity|]. cbn [length]. cbn. f_equal. lia.
     - destruct er; try contradiction; destruct l; try contradiction;
@@ -252,11 +266,103 @@ Section Step.
     destruct (find_line p n 0) as [li'|] eqn:Ef.
     - destruct (find_line_nth _ _ _ _ Ef) as (stmts & Hnth). rewrite Nat.sub_0_r in Hnth.
       eexists. split; [reflexivity|]. split; [unfold keeps; repeat split; assumption|].
-      split; [destruct Hrel as [A B]; split; [exact A | exact B]|]. split; [reflexivity|].
+      split; [destruct Hrel as [A B]; split; [exact A | exact B]|]. split; [try (destruct st; reflexivity); reflexivity|]. split; [left; split; [try (destruct st; reflexivity); reflexivity | reflexivity]|].
       split; [exists []; split; [rewrite app_nil_r; reflexivity | cbn; rewrite app_nil_r; reflexivity]|].
       right. left. exists n, li', stmts. repeat split; assumption.
     - split; [reflexivity|]. split; [reflexivity|]. eexists _, _. split; [reflexivity|].
       split; [reflexivity|]. split; [unfold keeps; repeat split; assumption|]. split; [reflexivity | split; [reflexivity | discriminate]].
+  Qed.
+
+  (* GOSUB: the depth check first, then the target, then the frame *)
+  Lemma step_gosub n x rest i :
+    skipn i toks = [TGosub; TNumber x] ++ rest -> line_target x = n ->
+    length (r_calls st) + length (r_frames st) = length (stack s) ->
+    steps_as (SGosub n) i [TGosub; TNumber x].
+  Proof.
+    intros Hsk Hn Hdepth. cbn [app] in Hsk.
+    destruct (skipn_cons_nth _ _ _ _ Hsk) as [H0 Hs1]. destruct (skipn_cons_nth _ _ _ _ Hs1) as [H1 _].
+    exists 1. intros fuel Hf r o. destruct fuel as [|f]; [lia|].
+    assert (Hrun : evaluate_statement (S f) 0 (at_idx s i r o) = gosub_line_number n (at_idx s (S (S i)) (S (S r)) o)).
+    { cbn [evaluate_statement]. change (Nat.eqb 0 max_nesting) with false. cbv iota.
+      unfold evaluate_statement_body.
+      rewrite bind_get_run. change (enable_tracing (at_idx s i r o)) with (enable_tracing s). rewrite Htrace. cbv iota.
+      rewrite bind_ret'.
+      erewrite bind_ok by (apply (next_some s toks Htoks); exact H0). cbv iota beta.
+      unfold evaluate_gosub_statement.
+      erewrite bind_ok by (apply (next_some s toks Htoks); exact H1). cbv iota beta.
+      unfold line_target in Hn. rewrite Hn. reflexivity. }
+    unfold step_result. rewrite Hrun. clear Hrun. cbn [exec]. unfold depth. rewrite Hdepth.
+    unfold gosub_line_number. rewrite bind_get_run.
+    change (stack (at_idx s (S (S i)) (S (S r)) o)) with (stack s).
+    change depth_cap with stack_limit.
+    destruct (Nat.eqb (length (stack s)) stack_limit).
+    - split; [reflexivity|]. split; [reflexivity|]. eexists _, _. split; [reflexivity|].
+      split; [reflexivity|]. split; [apply keeps_at|]. split; [reflexivity | split; [reflexivity | discriminate]].
+    - rewrite bind_get_run. pose proof (goto_runs n (S (S i)) (S (S r)) o) as Hg.
+      destruct (find_line p n 0) as [li'|] eqn:Ef; (erewrite bind_run by exact Hg).
+      + destruct (find_line_nth _ _ _ _ Ef) as (stmts & Hnth). rewrite Nat.sub_0_r in Hnth.
+        unfold modify. eexists. split; [reflexivity|].
+        split; [unfold keeps; repeat split; assumption|].
+        split.
+        { destruct Hrel as [A B].
+          assert (Hfr : forall X, r_frames (set_calls' X st) = r_frames st) by (intros; destruct st; reflexivity).
+          assert (Hvr : forall X, r_vars (set_calls' X st) = r_vars st) by (intros; destruct st; reflexivity).
+          split; intros name.
+          - rewrite Hfr, (A name). cbn [stack set_stack set_loc set_breakpoint].
+            change (stack (at_idx s (S (S i)) (S (S r)) o)) with (stack s).
+            rewrite rev_unit. reflexivity.
+          - rewrite Hvr. exact (B name). }
+        split; [destruct st; reflexivity|].
+        split.
+        { right. left. split; [destruct st; reflexivity|].
+          cbn [stack set_stack set_loc set_breakpoint]. change (stack (at_idx s (S (S i)) (S (S r)) o)) with (stack s).
+          change (loc (at_idx s (S (S i)) (S (S r)) o)) with (mkloc (loc_line (loc s)) (S (S i))).
+          cbn [length]. replace (i + 2) with (S (S i)) by lia. reflexivity. }
+        split; [exists []; split; [destruct st; cbn; rewrite app_nil_r; reflexivity | cbn; rewrite app_nil_r; reflexivity]|].
+        right. left. exists n, li', stmts. repeat split; assumption.
+      + split; [reflexivity|]. split; [reflexivity|]. eexists _, _. split; [reflexivity|].
+        split; [reflexivity|]. split; [unfold keeps; repeat split; assumption|]. split; [reflexivity | split; [reflexivity | discriminate]].
+  Qed.
+
+  (* RETURN *)
+  Lemma step_return rest i :
+    skipn i toks = [TReturn] ++ rest ->
+    (r_calls st = [] -> stack s = []) ->
+    (forall pc cr, r_calls st = pc :: cr -> exists fr rs, stack s = rs ++ [fr] /\ fr_vars fr = []) ->
+    steps_as SReturn i [TReturn].
+  Proof.
+    intros Hsk Hnil Hcons. cbn [app] in Hsk. destruct (skipn_cons_nth _ _ _ _ Hsk) as [H0 _].
+    exists 1. intros fuel Hf r o. destruct fuel as [|f]; [lia|].
+    assert (Hrun : evaluate_statement (S f) 0 (at_idx s i r o) = return_to_last_gosub (at_idx s (S i) (S r) o)).
+    { cbn [evaluate_statement]. change (Nat.eqb 0 max_nesting) with false. cbv iota.
+      unfold evaluate_statement_body.
+      rewrite bind_get_run. change (enable_tracing (at_idx s i r o)) with (enable_tracing s). rewrite Htrace. cbv iota.
+      rewrite bind_ret'.
+      erewrite bind_ok by (apply (next_some s toks Htoks); exact H0). reflexivity. }
+    unfold step_result. rewrite Hrun. clear Hrun. cbn [exec].
+    unfold return_to_last_gosub. rewrite bind_modify_run, bind_get_run.
+    change (stack (set_breakpoint None (at_idx s (S i) (S r) o))) with (stack s).
+    destruct (r_calls st) as [|pc cr] eqn:Ec.
+    - rewrite (Hnil eq_refl). cbn [rev].
+      split; [reflexivity|]. split; [reflexivity|]. eexists _, _. split; [reflexivity|].
+      split; [reflexivity|]. split; [unfold keeps; repeat split; assumption|]. split; [reflexivity | split; [reflexivity | discriminate]].
+    - destruct (Hcons pc cr eq_refl) as (fr & rs & Hst & Hv). rewrite Hst, rev_unit. unfold modify.
+      eexists. split; [reflexivity|].
+      split; [unfold keeps; repeat split; assumption|].
+      split.
+      { destruct Hrel as [A B].
+        assert (Hfr : forall X, r_frames (set_calls' X st) = r_frames st) by (intros; destruct st; reflexivity).
+        assert (Hvr : forall X, r_vars (set_calls' X st) = r_vars st) by (intros; destruct st; reflexivity).
+        split; intros name.
+        - rewrite Hfr, (A name), Hst, rev_unit. cbn [find_in_frames]. rewrite Hv. cbn [alist_get stack set_stack set_loc].
+          rewrite rev_involutive. reflexivity.
+        - rewrite Hvr. exact (B name). }
+      split; [destruct st; reflexivity|].
+      split.
+      { right. right. exists fr, rs, cr. rewrite rev_involutive.
+        repeat split; try reflexivity. }
+      split; [exists []; split; [destruct st; cbn; rewrite app_nil_r; reflexivity | cbn; rewrite app_nil_r; reflexivity]|].
+      right. right. right. exists fr, rs, cr. repeat split; reflexivity.
   Qed.
 
   (* END *)
@@ -353,7 +459,7 @@ Section Step.
         erewrite bind_ok by exact Hpk. cbv iota. cbn [ret].
         eexists. split; [reflexivity|].
         split; [unfold keeps; repeat split; assumption|].
-        split; [destruct Hrel as [A B]; split; [exact A | exact B]|]. split; [reflexivity|].
+        split; [destruct Hrel as [A B]; split; [exact A | exact B]|]. split; [try (destruct st; reflexivity); reflexivity|]. split; [left; split; [try (destruct st; reflexivity); reflexivity | reflexivity]|].
         split; [exists []; split; [rewrite app_nil_r; reflexivity | cbn; rewrite app_nil_r; reflexivity]|].
         right. left. exists n, li', stmts. repeat split; assumption.
       + split; [reflexivity|]. split; [reflexivity|]. eexists _, _. split; [reflexivity|].
@@ -376,9 +482,9 @@ Section Step.
         { unfold next_token. erewrite bind_ok by apply (peek_at s toks Htoks). rewrite Hnone. reflexivity. }
         erewrite bind_ok by (erewrite bind_ok by exact Hnt; reflexivity). cbv iota. cbn [ret].
         eexists. split; [reflexivity|]. split; [apply keeps_at|].
-        split; [apply same_store_at; destruct Hrel as [A B]; split; [exact A | exact B]|]. split; [reflexivity|].
+        split; [apply same_store_at; destruct Hrel as [A B]; split; [exact A | exact B]|]. split; [try (destruct st; reflexivity); reflexivity|]. split; [left; split; [try (destruct st; reflexivity); reflexivity | reflexivity]|].
         split; [exists []; split; [rewrite app_nil_r; reflexivity | cbn; rewrite app_nil_r; reflexivity]|].
-        right. right. split; [reflexivity|]. destruct Hlen as [Hl|[_ Hl]]; cbn; f_equal; cbn [length] in *; lia.
+        right. right. left. split; [reflexivity|]. destruct Hlen as [Hl|[_ Hl]]; cbn; f_equal; cbn [length] in *; lia.
       + (* a colon: the statements behind it are skipped too *)
         destruct (skipn_cons_nth _ _ _ _ Hs4) as [H4 _].
         rewrite repeat_m_S.
@@ -394,9 +500,9 @@ Section Step.
         { unfold next_token. erewrite bind_ok by apply (peek_at s toks Htoks). rewrite Hnone. reflexivity. }
         erewrite bind_ok by (erewrite bind_ok by exact Hnt; reflexivity). cbv iota. cbn [ret].
         eexists. split; [reflexivity|]. split; [apply keeps_at|].
-        split; [apply same_store_at; destruct Hrel as [A B]; split; [exact A | exact B]|]. split; [reflexivity|].
+        split; [apply same_store_at; destruct Hrel as [A B]; split; [exact A | exact B]|]. split; [try (destruct st; reflexivity); reflexivity|]. split; [left; split; [try (destruct st; reflexivity); reflexivity | reflexivity]|].
         split; [exists []; split; [rewrite app_nil_r; reflexivity | cbn; rewrite app_nil_r; reflexivity]|].
-        right. right. split; reflexivity.
+        right. right. left. split; reflexivity.
   Qed.
 End Step.
 
@@ -503,6 +609,9 @@ Proof.
   apply (reach_turn P s Q Hq). intros s' Hs'. apply IH; assumption.
 Qed.
 
+Lemma Forall2_len {A B} (R : A -> B -> Prop) l l' : Forall2 R l l' -> length l = length l'.
+Proof. induction 1; cbn; congruence. Qed.
+
 Section Program.
   Variable F : nat.
   Variable p : rprogram.
@@ -567,10 +676,49 @@ Section Program.
   Definition Fin (st : rstate) (s : interp) : Prop :=
     state s = Idle /\ outputs s = o0 ++ map OPrint (r_out st).
 
+  (* where a RETURN lands: just past the GOSUB that pushed the frame — on the
+     colon in front of the reference's return statement, or at the end of the line *)
+  Definition pcloc (T : list (N * list token)) (pc : rpc) (l : location) : Prop :=
+    exists n stmts toks,
+      nth_error p (fst pc) = Some (n, stmts) /\ toks_get n T = Some toks /\ loc_line l = Some n
+      /\ ((exists tl, skipn (loc_idx l) toks = TColon :: tl /\ LRen F (skipn (snd pc) stmts) tl)
+          \/ (skipn (loc_idx l) toks = [] /\ snd pc = length stmts)).
+
+  (* the reference's return stack against the model's frames (the fragment has no FOR) *)
+  Definition calls_rel (st : rstate) (s : interp) : Prop :=
+    r_frames st = [] /\
+    Forall2 (fun pc fr => fr_vars fr = [] /\ pcloc (st_toks s) pc (fr_ret fr)) (r_calls st) (rev (stack s)).
+
+  Lemma calls_ext st st' s s' :
+    r_calls st' = r_calls st -> r_frames st' = r_frames st -> stack s' = stack s -> st_toks s' = st_toks s ->
+    calls_rel st s -> calls_rel st' s'.
+  Proof. intros E1 E2 E3 E4 [A B]. split; [congruence|]. rewrite E1, E3, E4. exact B. Qed.
+
+  Lemma calls_depth st s : calls_rel st s -> length (r_calls st) + length (r_frames st) = length (stack s).
+  Proof.
+    intros [A B]. rewrite A. apply Forall2_len in B. rewrite rev_length in B. cbn [length]. lia.
+  Qed.
+
+  Lemma calls_nil st s : calls_rel st s -> r_calls st = [] -> stack s = [].
+  Proof.
+    intros [A B] E. rewrite E in B. destruct (rev (stack s)) as [|x l] eqn:Er; [|inversion B].
+    apply (f_equal (@rev _)) in Er. rewrite rev_involutive in Er. exact Er.
+  Qed.
+
+  Lemma calls_cons st s pc cr : calls_rel st s -> r_calls st = pc :: cr ->
+    exists fr rs, stack s = rs ++ [fr] /\ fr_vars fr = [] /\ pcloc (st_toks s) pc (fr_ret fr)
+                  /\ Forall2 (fun pc fr => fr_vars fr = [] /\ pcloc (st_toks s) pc (fr_ret fr)) cr (rev rs).
+  Proof.
+    intros [A B] E. rewrite E in B. destruct (rev (stack s)) as [|fr rs0] eqn:Er; [inversion B|].
+    apply (f_equal (@rev _)) in Er. rewrite rev_involutive in Er. cbn [rev] in Er.
+    inversion B as [|pc0 fr0 cr0 rs1 [H1 H2] H3]. subst.
+    exists fr, (rev rs0). rewrite rev_involutive. repeat split; assumption.
+  Qed.
+
   Inductive Sim : rpc -> rstate -> interp -> Prop :=
   | Sim_at li si st s colon :
       Inv s -> state s = Running -> same_store st s -> outputs s = o0 ++ map OPrint (r_out st) ->
-      at_stmt li si s colon -> Sim (li, si) st s
+      calls_rel st s -> at_stmt li si s colon -> Sim (li, si) st s
   | Sim_eol li st s n stmts : nth_error p li = Some (n, stmts) -> Sim (S li, 0) st s -> Sim (li, length stmts) st s
   | Sim_fin li si st s : length p <= li -> Fin st s -> Sim (li, si) st s.
 
@@ -590,12 +738,12 @@ Section Program.
 
   (* the end of a line, inside the call: on to the next line, or the program is over *)
   Lemma eol_after st s li n stmts toks :
-    Inv s -> state s = Running -> same_store st s -> outputs s = o0 ++ map OPrint (r_out st) ->
+    Inv s -> state s = Running -> same_store st s -> outputs s = o0 ++ map OPrint (r_out st) -> calls_rel st s ->
     nth_error p li = Some (n, stmts) -> toks_get n (st_toks s) = Some toks -> loc_line (loc s) = Some n ->
     nth_error toks (loc_idx (loc s)) = None ->
     exists s2, after_statement s = (Ok tt, s2) /\ Sim (S li, 0) st s2.
   Proof.
-    intros HI Hrun Hrel Hout Hp Ht Hl Hnone.
+    intros HI Hrun Hrel Hout Hcr Hp Ht Hl Hnone.
     pose proof (line_exists_line s n toks Hl Ht) as Hle.
     assert (Hcn : nth_error (cur_toks s) (loc_idx (loc s)) = None) by (rewrite (cur_toks_line s n toks Hl Ht); exact Hnone).
     assert (Hk : keys_after n (st_keys s) = nth_error (map fst p) (S li)).
@@ -610,6 +758,7 @@ Section Program.
       apply (Sim_at (S li) 0 st s2 false HI2 Hrun).
       + destruct Hrel as [A B]. split; [exact A | exact B].
       + exact Hout.
+      + apply (calls_ext st st s); try reflexivity; exact Hcr.
       + exists n', stmts', toks', toks'. repeat split; try assumption; reflexivity.
     - rewrite nth_error_map, Ep' in Hk. cbn in Hk.
       eexists. split; [apply (after_last s n Hle Hcn Hl Hk)|].
@@ -619,16 +768,20 @@ Section Program.
 
   (* every statement of the fragment steps as its step lemma says *)
   Lemma sren_steps s toks li after st stmt ts rest i :
-    Inv s -> fst (cur_tokens s) = Ok toks -> same_store st s ->
+    Inv s -> fst (cur_tokens s) = Ok toks -> same_store st s -> calls_rel st s ->
     skipn i toks = ts ++ rest -> (rest = [] \/ exists tr, rest = TColon :: tr) ->
     SRen F rest stmt ts -> steps_as F p s toks li after st stmt i ts.
   Proof.
-    intros HI Htoks Hrel Hsk Hrest HS.
+    intros HI Htoks Hrel Hcr Hsk Hrest HS.
     pose proof (i_trace s HI) as Htr. pose proof (i_warn s HI) as Hw.
-    destruct HS as [v e e' te H1 H2 H3 H4 H5|items mitems ti H1 H2 H3 H4|n x H1| |c c' tc n x H1 H2 H3 H4 H5].
+    destruct HS as [v e e' te H1 H2 H3 H4 H5|items mitems ti H1 H2 H3 H4|n x H1|n x H1| | |c c' tc n x H1 H2 H3 H4 H5].
     - eapply (step_let F p s toks Htoks Htr Hw li after st Hrel v e e' te rest i); eassumption.
     - eapply (step_print F p s toks Htoks Htr Hw li after st Hrel items mitems ti rest i); eassumption.
     - eapply (step_goto F p s toks Htoks Htr Hw (Inv_jump s HI) li after st Hrel n x rest i); eassumption.
+    - eapply (step_gosub F p s toks Htoks Htr Hw (Inv_jump s HI) li after st Hrel n x rest i);
+        [exact Hsk | exact H1 | apply calls_depth; exact Hcr].
+    - eapply (step_return F p s toks Htoks Htr Hw li after st Hrel rest i); [exact Hsk | apply calls_nil; exact Hcr |].
+      intros pc cr E. destruct (calls_cons st s pc cr Hcr E) as (fr & rs & A & B & _). exists fr, rs. split; assumption.
     - eapply (step_end F p s toks Htoks Htr Hw li after st rest i); [exact Hsk | apply (i_imm s HI)].
     - eapply (step_if F p s toks Htoks Htr Hw (Inv_jump s HI) (Inv_heads s HI) li after st Hrel c c' tc n x rest i);
         eassumption.
@@ -652,10 +805,10 @@ Section Program.
 
   (* the model's cursor on the first token of statement [si] of line [li] *)
   Lemma at_step li si st s :
-    Inv s -> state s = Running -> same_store st s -> outputs s = o0 ++ map OPrint (r_out st) ->
+    Inv s -> state s = Running -> same_store st s -> outputs s = o0 ++ map OPrint (r_out st) -> calls_rel st s ->
     at_stmt li si s false -> after_step (rstep F p (li, si) st) s.
   Proof.
-    intros HI Hrun Hrel Hout (n & stmts & toks & tl & Hp & Ht & Hl & Hsk & HL).
+    intros HI Hrun Hrel Hout Hcr (n & stmts & toks & tl & Hp & Ht & Hl & Hsk & HL).
     (* the statement and what follows it on the line *)
     assert (Hsplit : exists stmt rs ts rest,
               skipn si stmts = stmt :: rs /\ tl = ts ++ rest /\ SRen F rest stmt ts
@@ -673,7 +826,7 @@ Section Program.
     destruct Hsplit as (stmt & rs & ts & rest & Hst & -> & HS & Hrest).
     destruct (skipn_cons_nth _ _ _ _ Hst) as [Hnth Hrs].
     assert (Hrest' : rest = [] \/ exists tr', rest = TColon :: tr') by (destruct Hrest as [[-> _]|(tr' & -> & _)]; eauto).
-    destruct (sren_steps s toks li (li, S si) st stmt ts rest i HI Htoks Hrel Hsk Hrest' HS) as (f0 & Hstep).
+    destruct (sren_steps s toks li (li, S si) st stmt ts rest i HI Htoks Hrel Hcr Hsk Hrest' HS) as (f0 & Hstep).
     destruct (SRen_nonempty _ _ _ _ HS) as (t & ts' & Ets & _).
     assert (Hnt : nth_error (cur_toks s) (loc_idx (loc s)) = Some t).
     { rewrite Hct. fold i. rewrite Ets in Hsk. cbn [app] in Hsk. apply (skipn_cons_nth _ _ _ _ Hsk). }
@@ -686,7 +839,7 @@ Section Program.
     - (* the statement completes: the rest of the call *)
       apply (reach_turn _ s (Sim pc' st')); [|intros s' Hs'; apply reach_now, Hs'].
       exists f0. intros fuel Hf. specialize (Hstep fuel Hf (S (reads s)) (outputs s)).
-      destruct Hstep as (s' & Hev & Hk & Hrel' & _ & (outs & Ho1 & Ho2) & Hloc).
+      destruct Hstep as (s' & Hev & Hk & Hrel' & Hfr' & CS & (outs & Ho1 & Ho2) & Hloc).
       rewrite Hturn. rewrite Safety.bind_run, Hev.
       pose proof (Inv_keeps s s' HI Hk) as HI'.
       destruct Hk as (K1 & K2 & K3 & K4 & K5 & K6).
@@ -694,17 +847,32 @@ Section Program.
       assert (Hout' : outputs s' = o0 ++ map OPrint (r_out st')).
       { rewrite Ho2, Ho1, Hout, map_app, app_assoc. reflexivity. }
       assert (Ht' : toks_get n (st_toks s') = Some toks) by (rewrite K1; exact Ht).
-      destruct Hloc as [[-> Hloc]|[(n' & li' & stmts' & -> & Hp' & Hloc)|[-> Hloc]]].
+      pose proof (skipn_app_len _ _ _ _ Hsk) as Hsk'.
+      (* where a RETURN to this statement lands *)
+      assert (Hafter : pcloc (st_toks s') (li, S si) (mkloc (loc_line (loc s)) (i + length ts))).
+      { exists n, stmts, toks. cbn [fst snd loc_line loc_idx].
+        split; [exact Hp|]. split; [exact Ht'|]. split; [exact Hl|].
+        destruct Hrest as [[-> ->]|(tr' & -> & HL')].
+        - right. split; [exact Hsk'|].
+          assert (Hz : length (skipn si stmts) = 1) by (rewrite Hst; reflexivity).
+          rewrite skipn_length in Hz. lia.
+        - left. exists tr'. split; [exact Hsk'|]. rewrite Hrs. exact HL'. }
+      assert (Hcr' : calls_rel st' s').
+      { destruct Hcr as [A B]. split; [congruence|].
+        destruct CS as [[E1 E2]|[[E1 E2]|(fr & rs0 & cr & E1 & E2 & E3 & E4 & _)]].
+        - rewrite E1, E2, K1. exact B.
+        - rewrite E1, E2, rev_unit. constructor; [split; [reflexivity | exact Hafter]|]. rewrite K1. exact B.
+        - rewrite E4, E2, K1. rewrite E3, E1, rev_unit in B. inversion B; assumption. }
+      destruct Hloc as [[-> Hloc]|[(n' & li' & stmts' & -> & Hp' & Hloc)|[[-> Hloc]|(fr & rs0 & cr & E1 & E2 & Hloc)]]].
       + (* just past the statement *)
         assert (Hl' : loc_line (loc s') = Some n) by (rewrite Hloc; exact Hl).
         assert (Hidx : loc_idx (loc s') = i + length ts) by (rewrite Hloc; reflexivity).
-        pose proof (skipn_app_len _ _ _ _ Hsk) as Hsk'.
         destruct Hrest as [[-> ->]|(tr' & -> & HL')].
         * (* last statement of the line *)
           assert (Hlen : S si = length stmts).
           { assert (Hz : length (skipn si stmts) = 1) by (rewrite Hst; reflexivity).
             rewrite skipn_length in Hz. lia. }
-          destruct (eol_after st' s' li n stmts toks HI' Hrun' Hrel' Hout' Hp Ht' Hl') as (s2 & Ha & HS2).
+          destruct (eol_after st' s' li n stmts toks HI' Hrun' Hrel' Hout' Hcr' Hp Ht' Hl') as (s2 & Ha & HS2).
           { rewrite Hidx. apply skipn_nil_nth. exact Hsk'. }
           exists s2. split; [rewrite Ha; reflexivity|]. rewrite Hlen. apply (Sim_eol li st' s2 n stmts Hp HS2).
         * (* a colon follows: the call ends on it *)
@@ -715,7 +883,8 @@ Section Program.
             rewrite (cur_toks_line s' n toks Hl' Ht'), Hidx. exact Hc. }
           apply (Sim_at li (S si) st' (bump s') true);
             [apply (Inv_ext s'); try reflexivity; exact HI' | exact Hrun'
-            | destruct Hrel' as [A B]; split; [exact A | exact B] | exact Hout' |].
+            | destruct Hrel' as [A B]; split; [exact A | exact B] | exact Hout'
+            | apply (calls_ext st' st' s'); try reflexivity; exact Hcr' |].
           exists n, stmts, toks, tr'.
           split; [exact Hp|]. split; [exact Ht'|]. split; [exact Hl'|].
           split; [change (loc (bump s')) with (loc s'); rewrite Hidx; exact Hsk' | rewrite Hrs; exact HL'].
@@ -729,15 +898,39 @@ Section Program.
           rewrite (cur_toks_line s' n' _ Hl' Ht2), Hloc. reflexivity. }
         apply (Sim_at li' 0 st' (bump s') false);
           [apply (Inv_ext s'); try reflexivity; exact HI' | exact Hrun'
-          | destruct Hrel' as [A B]; split; [exact A | exact B] | exact Hout' |].
+          | destruct Hrel' as [A B]; split; [exact A | exact B] | exact Hout'
+          | apply (calls_ext st' st' s'); try reflexivity; exact Hcr' |].
         exists n', stmts', (t2 :: toks2), (t2 :: toks2).
         split; [exact Hp'|]. split; [exact Ht2|]. split; [exact Hl'|].
         split; [change (loc (bump s')) with (loc s'); rewrite Hloc; reflexivity | exact HL2].
       + (* IF not taken: the rest of the line is skipped *)
         assert (Hl' : loc_line (loc s') = Some n) by (rewrite Hloc; exact Hl).
-        destruct (eol_after st' s' li n stmts toks HI' Hrun' Hrel' Hout' Hp Ht' Hl') as (s2 & Ha & HS2).
+        destruct (eol_after st' s' li n stmts toks HI' Hrun' Hrel' Hout' Hcr' Hp Ht' Hl') as (s2 & Ha & HS2).
         { rewrite Hloc. cbn [loc_idx]. apply nth_error_None. apply le_n. }
         exists s2. split; [rewrite Ha; reflexivity | exact HS2].
+      + (* RETURN: just past the GOSUB that called *)
+        destruct (calls_cons st s pc' cr Hcr E2) as (fr2 & rs2 & A & _ & C & _).
+        rewrite E1 in A. apply app_inj_tail in A. destruct A as [_ <-].
+        destruct pc' as [li2 si2].
+        destruct C as (n2 & stmts2 & toks2 & P1 & P2 & P3 & PC). cbn [fst snd] in P1, PC.
+        assert (Hl' : loc_line (loc s') = Some n2) by (rewrite Hloc; exact P3).
+        assert (Ht2 : toks_get n2 (st_toks s') = Some toks2) by (rewrite K1; exact P2).
+        destruct PC as [(tl2 & Q1 & Q2)|(Q1 & Q2)].
+        * destruct (skipn_cons_nth _ _ _ _ Q1) as [Hc _].
+          assert (Hle' : line_exists s' (loc s')) by (apply (line_exists_line s' n2 toks2 Hl' Ht2)).
+          exists (bump s'). split.
+          { rewrite (after_stay s' TColon Hle'); [reflexivity|].
+            rewrite (cur_toks_line s' n2 toks2 Hl' Ht2), Hloc. exact Hc. }
+          apply (Sim_at li2 si2 st' (bump s') true);
+            [apply (Inv_ext s'); try reflexivity; exact HI' | exact Hrun'
+            | destruct Hrel' as [A B]; split; [exact A | exact B] | exact Hout'
+            | apply (calls_ext st' st' s'); try reflexivity; exact Hcr' |].
+          exists n2, stmts2, toks2, tl2.
+          split; [exact P1|]. split; [exact Ht2|]. split; [exact Hl'|].
+          split; [change (loc (bump s')) with (loc s'); rewrite Hloc; exact Q1 | exact Q2].
+        * destruct (eol_after st' s' li2 n2 stmts2 toks2 HI' Hrun' Hrel' Hout' Hcr' P1 Ht2 Hl') as (s2 & Ha & HS2).
+          { rewrite Hloc. apply skipn_nil_nth. exact Q1. }
+          exists s2. split; [rewrite Ha; reflexivity|]. rewrite Q2. apply (Sim_eol li2 st' s2 n2 stmts2 P1 HS2).
     - (* END *)
       apply (reach_turn _ s (Fin st')); [|intros s' Hs'; apply reach_now, Hs'].
       exists f0. intros fuel Hf. specialize (Hstep fuel Hf (S (reads s)) (outputs s)).
@@ -761,12 +954,13 @@ Section Program.
 
   (* the colon in front of a statement is a host call of its own *)
   Lemma colon_step li si st s :
-    Inv s -> state s = Running -> same_store st s -> outputs s = o0 ++ map OPrint (r_out st) ->
+    Inv s -> state s = Running -> same_store st s -> outputs s = o0 ++ map OPrint (r_out st) -> calls_rel st s ->
     at_stmt li si s true ->
     exists f0, forall fuel, f0 <= fuel -> exists s', continue_evaluating fuel s = (Ok tt, s') /\
-      Inv s' /\ state s' = Running /\ same_store st s' /\ outputs s' = o0 ++ map OPrint (r_out st) /\ at_stmt li si s' false.
+      Inv s' /\ state s' = Running /\ same_store st s' /\ outputs s' = o0 ++ map OPrint (r_out st) /\ calls_rel st s'
+      /\ at_stmt li si s' false.
   Proof.
-    intros HI Hrun Hrel Hout (n & stmts & toks & tl & Hp & Ht & Hl & Hsk & HL).
+    intros HI Hrun Hrel Hout Hcr (n & stmts & toks & tl & Hp & Ht & Hl & Hsk & HL).
     set (i := loc_idx (loc s)) in *.
     pose proof (cur_tokens_line s n toks Hl Ht) as Htoks.
     pose proof (line_exists_line s n toks Hl Ht) as Hle.
@@ -793,19 +987,21 @@ Section Program.
     eexists. split; [reflexivity|].
     split; [apply (Inv_ext s); try reflexivity; exact HI|]. split; [exact Hrun|].
     split; [destruct Hrel as [A B]; split; [exact A | exact B]|]. split; [exact Hout|].
+    split; [apply (calls_ext st st s); try reflexivity; exact Hcr|].
     exists n, stmts, toks, tl. split; [exact Hp|]. split; [exact Ht|]. split; [exact Hl|]. split; [exact Hsk' | exact HL].
   Qed.
 
   (* one reference step *)
   Theorem sim_step pc st s : Sim pc st s -> after_step (rstep F p pc st) s.
   Proof.
-    induction 1 as [li si st s colon HI Hrun Hrel Hout Hat|li st s n stmts Hp HS IH|li si st s Hlen HF].
+    induction 1 as [li si st s colon HI Hrun Hrel Hout Hcr Hat|li st s n stmts Hp HS IH|li si st s Hlen HF].
     - destruct colon; [|apply at_step; assumption].
-      destruct (colon_step li si st s HI Hrun Hrel Hout Hat) as (f0 & Hc).
+      destruct (colon_step li si st s HI Hrun Hrel Hout Hcr Hat) as (f0 & Hc).
       assert (Hgoal : forall s', (Inv s' /\ state s' = Running /\ same_store st s'
-                                 /\ outputs s' = o0 ++ map OPrint (r_out st) /\ at_stmt li si s' false) ->
+                                 /\ outputs s' = o0 ++ map OPrint (r_out st) /\ calls_rel st s'
+                                 /\ at_stmt li si s' false) ->
                         after_step (rstep F p (li, si) st) s').
-      { intros s' (A & B & C & D & E). apply at_step; assumption. }
+      { intros s' (A & B & C & D & E & G). apply at_step; assumption. }
       destruct (rstep F p (li, si) st) as [pc' st'|st'|er line st'|]; unfold after_step in *.
       + eapply reach_turn; [exists f0; exact Hc | exact Hgoal].
       + eapply reach_turn; [exists f0; exact Hc | exact Hgoal].
